@@ -62,12 +62,16 @@ def hx(b):
 def run_programs(server, d, progs, r, tag):
     """Returns ({name: mismatch text}, trace lines, err)."""
     cases = [to_tcp(r, p) for p in progs]
-    now = time.time()
     # one connection at a time: the property is about the reply stream of a connection, and the
     # model is sequential (concurrent clients are the subject of C05/C13)
     res, err = resplib.run_tcp(server, d, cases, tag=tag, workers=1)
     if err:
         return None, [], err
+    return judge_programs(d, progs, res, tag)
+
+
+def judge_programs(d, progs, res, tag):
+    now = time.time()
     inp, ver, tr = d / (tag + ".c03in"), d / (tag + ".verdict"), d / (tag + ".trace")
     with open(inp, "w") as f:
         for p in progs:
@@ -254,12 +258,133 @@ def write_obligation(d):
     if rc != 0 or not out.exists():
         return None, "writecheck failed: " + log[-800:]
     facts = json.loads(out.read_text())
-    if facts["ok"]:
-        return facts, None
-    bad = [w for w in (facts.get("writes") or []) if not w["guarded"]] + (facts.get("unrecognised") or [])
-    why = "; ".join("%s:%s %s: %s" % (w["file"], w["line"], w["what"], w.get("why", "")) for w in bad[:4]) or \
-        "Handle/HandleCluster or their conn.Write calls not found: the code no longer has the shape the model describes"
-    return facts, "the reply writes of Manager.Handle/HandleCluster are neither deadline-free nor followed by closing the connection on error (premise write_atomic_or_close): " + why
+    wbroken = ebroken = None
+    if not facts.get("writes_ok"):
+        bad = [w for w in (facts.get("writes") or []) if not w["guarded"]] + (facts.get("unrecognised") or [])
+        why = "; ".join("%s:%s %s: %s" % (w["file"], w["line"], w["what"], w.get("why", "")) for w in bad[:4]) or \
+            "Handle/HandleCluster or their conn.Write calls not found: the code no longer has the shape the model describes"
+        wbroken = ("the reply writes of Manager.Handle/HandleCluster are neither deadline-free nor followed by closing the connection on error "
+                   "(premise write_atomic_or_close): " + why)
+    if not facts.get("encoders_ok"):
+        why = "; ".join("%s:%s %s: %s %s" % (w["file"], w["line"], w["func"], w["what"], w.get("why", "")) for w in (facts.get("encoder_issues") or [])[:4]) or \
+            "no ToBytes method found in package resp"
+        ebroken = "a reply encoder (resp ToBytes) may return memory that is retained or reused after it returns (premise: a reply's bytes are its own until written): " + why
+    return facts, wbroken, ebroken
+
+
+# ----------------------------------------------------------------------------- concurrent readers
+
+def shorten_mismatch(txt, keep=160):
+    """a mismatch line of c03run may carry MiBs of hex: keep the place where model and impl part"""
+    m = re.match(r"(.*?kind=\S+ step=\d+ )model=(.*) impl=(.*)$", txt, re.S)
+    if not m or len(txt) < 1200:
+        return txt[:1500]
+    a, b = m.group(2), m.group(3)
+    i = 0
+    n = min(len(a), len(b))
+    while i < n and a[i] == b[i]:
+        i += 1
+    lo = max(0, i - keep // 2)
+    return "%smodel(%d chars)=...%s... impl(%d chars)=...%s... (canonical reply texts part at character %d)" % (
+        m.group(1), len(a), a[lo:lo + keep], len(b), b[lo:lo + keep], i)
+
+
+def light_programs(seed, n):
+    """array-reply programs of every family for the connections that run next to the big readers
+    (no KEYS: it scans the whole keyspace, which other connections are writing)"""
+    fams = {k: v for k, v in G.FAMILIES.items() if k in ("lists", "sets", "hashes", "zsets", "streams", "strings")}
+    progs = G.gen_programs(seed + 77, n, fams, maxlen=16)
+    out = []
+    for p in progs:
+        cmds = [c for c in p.cmds if not (c and c[0].lower() in (b"keys", b"blpop", b"brpop"))]
+        out.append(G.Program("l" + p.name, cmds, p.families))
+    return out
+
+
+def conc_scenario(d, st, seed, rounds, pause_ms, tag, victims=6, heavy=24):
+    """several slow readers of one big array reply + many concurrent big array replies on another
+    key + ordinary programs of every family, all on one server; every byte stream is decoded by the
+    extracted decoder and compared with the command model.  Returns (mismatch text or None, info)."""
+    od = d / tag
+    od.mkdir(exist_ok=True)
+    size_a = slow_size()
+    size_b = size_a - (1 << 20)
+    info = dict(victims=victims, heavy=heavy, rounds=rounds, pause_ms=pause_ms, size_a=size_a, size_b=size_b)
+    server = resplib.Server(d)
+    light = dict(mm={}, err=None, n=0)
+    try:
+        if not server.start():
+            raise RuntimeError("could not start the server: " + server.stderr_tail())
+        st["server_starts"] += 1
+        progs = light_programs(seed, 120)
+
+        def light_job():
+            try:
+                r2 = random.Random(seed + 5)
+                cases = [to_tcp(r2, p) for p in progs]
+                for c in cases:
+                    c.pause = 0
+                res, err = resplib.run_tcp(server, d, cases, tag=tag + "light", workers=4)
+                light["res"], light["err"] = res, err
+            except Exception as ex:      # reported below
+                light["err"] = str(ex)
+        lt = threading.Thread(target=light_job, daemon=True)
+        lt.start()
+        rc, log = lib.sh([str(lib.BUILD / resplib.H), "concurrent", server.addr(), str(od), str(victims), str(heavy), str(rounds), str(pause_ms),
+                          str(size_a), str(size_b)], cwd=d, timeout=1500)
+        lt.join()
+        try:
+            summ = json.loads((log.strip().splitlines() or ["{}"])[-1])
+        except ValueError:
+            summ = {}
+        if rc != 0 or "connections" not in summ:
+            if not server.alive():
+                return "kind=status step=0 model=EOF impl=the server process died: " + server.stderr_tail(400), info
+            raise RuntimeError("harness_resp concurrent rc=%s %s" % (rc, log[-500:]))
+        info.update(summ)
+        info["server_alive"] = server.alive()
+        ver, tr = od / "verdict", od / "trace"
+        rc, log = lib.sh(resplib.BIGSTACK + "exec %s tcp %s %s %s" % (lib.BUILD / "c03run", od / "conc.c03in", ver, tr), cwd=d, timeout=1800,
+                         extra_env=resplib.OCAMLENV)
+        if rc != 0 or not ver.exists():
+            raise RuntimeError("c03run (concurrent scenario) rc=%s %s" % (rc, log[-500:]))
+        bad = [l for l in ver.read_text().splitlines() if l.startswith("MISMATCH ")]
+        info["decoded_cases"] = sum(1 for l in ver.read_text().splitlines() if l.startswith(("OK ", "MISMATCH ")))
+        # the light programs: same comparison as the main batch
+        if light["err"]:
+            raise RuntimeError("light programs: " + str(light["err"]))
+        lmm, _, lerr = judge_programs(d, progs, light["res"], tag + "lightj")
+        if lerr:
+            raise RuntimeError(lerr)
+        info["light_programs"] = len(progs)
+        info["light_mismatches"] = len(lmm)
+        if not server.alive():
+            return "kind=status step=0 model=EOF impl=the server process died: " + server.stderr_tail(400), info
+        if bad:
+            return shorten_mismatch(bad[0].split(" ", 1)[1]), info
+        if lmm:
+            name = sorted(lmm)[0]
+            return "light program %s: %s" % (name, shorten_mismatch(lmm[name])), info
+        return None, info
+    finally:
+        server.stop()
+        for f in (od / "conc.c03in", od / "trace"):
+            try:
+                f.unlink()
+            except OSError:
+                pass
+
+
+def confirm_conc(d, st, seed, rounds, pause_ms, first):
+    """reproduction rule: the scenario must fail twice in at most three runs"""
+    fails, runs, last = (1 if first else 0), 1, first
+    while runs < 3 and fails < 2 and fails + (3 - runs) >= 2:
+        txt, _ = conc_scenario(d, st, seed, rounds, pause_ms, "concc%d" % runs)
+        runs += 1
+        if txt:
+            fails += 1
+            last = txt
+    return last if fails >= 2 else None
 
 
 def stats(trace):
@@ -290,6 +415,12 @@ def readable_prog(cmds):
 
 def replay(ctx, d):
     r = json.load(open(ctx.replay))
+    if r.get("kind") == "concurrent-readers":
+        st = dict(server_starts=0)
+        txt, info = conc_scenario(d, st, int(r.get("seed", ctx.seed)), int(r["rounds"]), int(r["pause_ms"]), "replay")
+        print(info)
+        print(txt or "every connection's bytes decode to the replies of its own commands")
+        return 1 if txt else 0
     if r.get("kind") == "slow-reader":
         st = dict(server_starts=0)
         txt, info = slow_reader(d, int(r["pause_ms"]), "replay", st, int(r["size"]))
@@ -329,9 +460,13 @@ def run(ctx, families=None):
     failing, trace, progs = None, [], []
     slow = dict(txt=None, info={}, err=None, done=False)
     T = 6500 if ctx.tier == "quick" else 35000
-    wfacts, wbroken = None, None
+    wfacts, wbroken, ebroken = None, None, None
+    conc = dict(txt=None, info={}, err=None)
+    CR, CP = (2, 600) if ctx.tier == "quick" else (6, 1500)
     if not berr:
-        wfacts, wbroken = write_obligation(d)
+        wfacts, wbroken, ebroken = write_obligation(d)
+        if wfacts is None:
+            berr, wbroken = wbroken, None
 
         def slow_job():
             try:
@@ -339,8 +474,15 @@ def run(ctx, families=None):
                 slow["done"] = True
             except RuntimeError as ex:
                 slow["err"] = str(ex)
+        def conc_job():
+            try:
+                conc["txt"], conc["info"] = conc_scenario(d, st, ctx.seed, CR, CP, "conc")
+            except RuntimeError as ex:
+                conc["err"] = str(ex)
         th = threading.Thread(target=slow_job, daemon=True)
         th.start()      # runs next to the program batch: its 6.5 s of not reading cost no wall time
+        th2 = threading.Thread(target=conc_job, daemon=True)
+        th2.start()     # the concurrent big-reply scenario, likewise on a server of its own
         try:
             progs = build_cases(ctx, families)
             server = resplib.Server(d)
@@ -392,7 +534,28 @@ def run(ctx, families=None):
         except RuntimeError as ex:
             berr = str(ex)
         th.join()
+        th2.join()
         try:
+            if failing is None and not berr:
+                if conc["err"]:
+                    raise RuntimeError(conc["err"])
+                ctxt, rounds = conc["txt"], CR
+                ctxt = confirm_conc(d, st, ctx.seed, rounds, CP, ctxt) if ctxt else None
+                if conc["txt"] and not ctxt:
+                    st.setdefault("unreproduced_discrepancies", []).append(dict(case="concurrent-readers", mismatch=conc["txt"][:300], reproduced=False))
+                if ctxt is None and ebroken:
+                    # the structural premise about the encoders is broken: look harder for the failing input
+                    rounds = 8 if ctx.tier == "quick" else 20
+                    t1, info1 = conc_scenario(d, st, ctx.seed, rounds, CP, "conclong")
+                    ctxt = confirm_conc(d, st, ctx.seed, rounds, CP, t1) if t1 else None
+                if ctxt:
+                    ci = conc["info"]
+                    failing = dict(kind="concurrent-readers", mismatch=ctxt, rounds=rounds, pause_ms=CP, seed=ctx.seed,
+                                   scenario=["setup: RPUSH conc:bigA<CR><LF> (about %s bytes in 65521-byte elements), RPUSH conc:bigB (about %s bytes in 70001-byte elements)" % (ci.get("size_a"), ci.get("size_b")),
+                                             "%d times: 6 connections send LRANGE conc:bigA<CR><LF> 0 -1 ; PING and read nothing for %d ms; 100 ms later 24 connections send LRANGE conc:bigB 0 -1 ; PING and read at once" % (rounds, CP),
+                                             "120 ordinary programs (lists, sets, hashes, sorted sets, streams, strings) run on 4 more connections meanwhile"],
+                                   expected="every connection's bytes decode (extracted decode_stream) to exactly the replies the model gives for its own commands",
+                                   structural_premise=ebroken or "holds (harness_resp writecheck, encoders)")
             if failing is None and not berr:
                 if slow["err"]:
                     raise RuntimeError(slow["err"])
@@ -416,7 +579,13 @@ def run(ctx, families=None):
         except RuntimeError as ex:
             berr = str(ex)
     rc = 0
-    if failing and failing.get("kind") == "slow-reader":
+    if failing and failing.get("kind") == "concurrent-readers":
+        failing["note"] = ("bytes read by connections that ran concurrently were decoded by the extracted decode_stream and compared with the extracted srv_exec "
+                           "(keys are per connection or read-only, so any interleaving gives the same replies); re-run with ./check C03 --replay <this file>")
+        lib.violation(PID, failing)
+        ctx.violations += 1
+        rc = 1
+    elif failing and failing.get("kind") == "slow-reader":
         failing["note"] = ("the bytes the server wrote for the pipeline GET big; PING were decoded by the extracted decode_stream; kind=shape: they are not "
                            "[one bulk string, +PONG] (a reply abandoned part-way with the next reply written behind it), kind=payload: the bulk differs from the "
                            "stored value; re-run with ./check C03 --replay <this file>")
@@ -430,18 +599,23 @@ def run(ctx, families=None):
         lib.violation(PID, failing)
         ctx.violations += 1
         rc = 1
-    elif broken or berr or wbroken:
-        lib.violation(PID, dict(kind="tie-broken", what=broken or berr or wbroken,
-                                searched=("slow-reader scenario with pauses of %d ms and a longer one found no failing input" % T) if wbroken and not (broken or berr) else None,
-                                writecheck=wfacts if wbroken else None), found_input=False)
+    elif broken or berr or wbroken or ebroken:
+        searched = None
+        if not (broken or berr):
+            searched = ("slow-reader scenario with pauses of %d ms and a longer one found no failing input" % T) if wbroken else \
+                "concurrent big-reply scenario with %d and with more rounds found no failing input" % CR
+        lib.violation(PID, dict(kind="tie-broken", what=broken or berr or wbroken or ebroken, searched=searched,
+                                writecheck=wfacts if (wbroken or ebroken) else None), found_input=False)
         ctx.violations += 1
         rc = 1
     for kf in lib.known_findings(PID):
         if kf["kind"] == "open":
             print("KNOWN-FINDING: property=%s %s %s" % (PID, kf["id"], kf["text"]))
     shapes, kinds, cmds, crlf_bulks, err_lines = stats(trace)
-    cov["obligations"] += 1          # the structural premise write_atomic_or_close (harness_resp writecheck)
-    if wfacts and wfacts.get("ok") and not broken:
+    cov["obligations"] += 2          # the structural premises (harness_resp writecheck): reply writes, reply encoders
+    if wfacts and wfacts.get("writes_ok") and not broken:
+        cov["discharged"] += 1
+    if wfacts and wfacts.get("encoders_ok") and not broken:
         cov["discharged"] += 1
     samples = []
     for p in progs[7:9]:
@@ -456,7 +630,9 @@ def run(ctx, families=None):
         bulk_payloads_with_cr_or_lf_decoded=crlf_bulks, error_replies=err_lines, server_starts=st["server_starts"],
         unreproduced_discrepancies=st.get("unreproduced_discrepancies", []),
         slow_reader=dict(slow["info"], pause_ms=T, note="SET big; GET big + PING in one write; client silent for pause_ms; reply bytes decoded by the extracted decode_stream: [bulk = stored value, +PONG]"),
-        write_obligation=dict(ok=bool(wfacts and wfacts.get("ok")), shape=(wfacts or {}).get("shape"), writes=len((wfacts or {}).get("writes") or []),
+        concurrent_readers=dict(conc["info"], note="slow readers of a big array reply + concurrent big array replies + ordinary programs on one server; all byte streams decoded by the extracted decoder"),
+        encoder_obligation=dict(ok=bool(wfacts and wfacts.get("encoders_ok")), functions=(wfacts or {}).get("encoder_funcs") or [], issues=(wfacts or {}).get("encoder_issues") or []),
+        write_obligation=dict(ok=bool(wfacts and wfacts.get("writes_ok")), shape=(wfacts or {}).get("shape"), writes=len((wfacts or {}).get("writes") or []),
                               deadlines_in_server=(wfacts or {}).get("deadlines_in_server") or [], deadlines_elsewhere=(wfacts or {}).get("deadlines_elsewhere") or []),
         samples=samples or ["(none)"],
         correspondence="bytes written by the real server (server.Start over TCP) decoded by extracted decode_stream: complete, one reply per command, equal to extracted srv_exec reply for reply",
